@@ -112,6 +112,14 @@ RULES = {
         "loop variables) on the other. Entry k of the value array belongs to entry k of the index array, so any position permutation applied "
         "to one must be applied to the other. Broken (keys shifted one by one, blocks exchanged once at the end) -> values end up under "
         "the wrong column index as soon as an entry travels two or more slots.", 4),
+    "C02.swap-sequence-order": (
+        "Adjacency::Permutation (kernel/adjacency/permutation.{hpp,cpp}; the row/column permutations of every permute()) represents a "
+        "permutation as the product of the transpositions (k, swap[k]), k = 0 .. n-2.  Every loop that applies that sequence - its body "
+        "exchanges X[a] and X[S[a]] for a position a that is affine in the loop variable - applies it front to back when it computes the "
+        "permutation itself (apply(x, false), construction from a swap array) and back to front when it computes the inverse (apply(x, true), "
+        "ConstrType::inv_swap): contexts are taken from the repository's own names (enumerator / parameter names beginning with inv). "
+        "Broken (the inverse-swap constructor walking forwards) -> the 'inverse' is the permutation itself for every cycle of length >= 3, "
+        "so permute(P) followed by permute(P_inv) does not restore the matrix.", 3),
     "C02.size-pairing": (
         "every array pushed into _elements/_indices is paired, in order, with a push of the same extent into _elements_size/"
         "_indices_size; at every exit the size vector has exactly as many entries as its pointer vector (symbolic lengths through "
@@ -1156,6 +1164,17 @@ def transpose_shape_rules(ck, fam, seen_fail):
 # E3 (light): per-row offset stores are not skipped for rows without entries
 # -------------------------------------------------------------------------------------------------
 
+def _skip_side_stores(ifnode, when, arr_decl, idx_poly, it):
+    """does the side of the If that leaves the iteration store to the same element itself (`if(len == 0) { P[i+1] = P[i]; continue; }`)?"""
+    side = ifnode.get("then") if when else ifnode.get("else")
+    for x in walk(side or {}):
+        if x.get("k") == "Assign" and x.get("op") == "=":
+            l = L.unwrap(x["lhs"])
+            if l.get("k") == "Index" and L.unwrap(l["b"]).get("k") == "Ref" and L.unwrap(l["b"]).get("d") == arr_decl and poly(it, l["idx"]) == idx_poly:
+                return True
+    return False
+
+
 def offset_store_rules(ck, fam, seen_fail):
     for fn in fam.functions():
         if fn.body is None:
@@ -1280,6 +1299,16 @@ def offset_store_rules(ck, fam, seen_fail):
                 b = f.get("body") or {}
                 regions.append((b.get("s", []) if b.get("k") == "Block" else [b], fv))
             undecided = None
+            # running-offset recurrence  P[v + c] = P[v + c - 1] + ...  : every element is built on its predecessor, so the store is
+            # needed in every iteration of its own loop; a data-dependent skip in front of it (other than the loop's own emptiness)
+            # leaves P[v + c] at its initial value and every later offset is built on that
+            recurrence = False
+            lp_ = poly(it, lhs["idx"])
+            for x in walk(store["rhs"]):
+                if x.get("k") == "Index" and L.unwrap(x["b"]).get("k") == "Ref" and L.unwrap(x["b"]).get("d") == base["d"]:
+                    dlt = psub(lp_, poly(it, x["idx"]))
+                    if set(dlt) == {()} and dlt[()] == 1:
+                        recurrence = True
             for stmts, target in regions:
                 for t in stmts:
                     if t is target or contains(t, target):
@@ -1304,6 +1333,11 @@ def offset_store_rules(ck, fam, seen_fail):
                             verdict = False
                             det = ("the per-row store %s is bypassed when `%s` is %s - that is the emptiness of the inner loop at line %s (no entries in this block of rows), "
                                    "not of the row loop itself: rows without entries keep an uninitialised offset" % (render(lhs)[:40], render(cond)[:40], "true" if when else "false", hit[0].get("l")))
+                        elif recurrence and stmts is top and not stop and not _skip_side_stores(t, when, base["d"], lp_, it):
+                            verdict = False
+                            det = ("the running-offset store %s = %s is bypassed when `%s` is %s: the element keeps its initial value, and the offsets of all following rows are built on it "
+                                   "(row pointers no longer monotone / wrong for every row behind a skipped one, e.g. an empty row after a non-empty one)" % (
+                                       render(lhs)[:40], render(store["rhs"])[:50], render(cond)[:40], "true" if when else "false"))
                         elif undecided is None:
                             undecided = "the store %s can be skipped under `%s`, which the check can relate neither to the row loop nor to an inner loop" % (render(lhs)[:40], render(cond)[:40])
                     if stop:
@@ -2035,6 +2069,168 @@ def lockstep_rules(ck, fam, seen_fail):
 
 
 # -------------------------------------------------------------------------------------------------
+# Adjacency::Permutation: order in which the transposition sequence is applied
+# -------------------------------------------------------------------------------------------------
+
+def swap_order_rules(ck, pfacts, seen_fail):
+    fam = L.Family([pfacts])
+    fns = [f for f in pfacts.functions if f.body is not None and f.tk in ("inst", "plain", "spec") and f.cls.endswith("Adjacency::Permutation")]
+    if not fns:
+        ck.incomplete("C02.swap-sequence-order", "no member of Adjacency::Permutation found in %s" % pfacts.tu)
+        return
+    seen_keys = set()
+    for fn in fns:
+        loops = [n for n in fn.nodes() if n.get("k") == "For"]
+        if not loops:
+            continue
+        it = L.Interp(fam, fn)
+        it.is_loop_var = lambda d: False
+        par = it.par
+
+        def strip(e):
+            e = L.unwrap(e)
+            while e is not None and e.get("k") in ("Construct", "TempObj") and len(e.get("a", [])) == 1:
+                e = L.unwrap(e["a"][0])
+            return e
+
+        def element(e):
+            """(container text, index node) of an element expression p[i] / vec[i] / vec.at(i)"""
+            e = strip(e)
+            if e is None:
+                return None
+            if e.get("k") == "Index":
+                return render(L.unwrap(e["b"])), e["idx"]
+            if e.get("k") == "OpCall" and e.get("op") == "[]" and len(e.get("a") or []) == 2:
+                return render(L.unwrap(e["a"][0])), e["a"][1]
+            if e.get("k") == "MCall" and e.get("n") in ("at", "operator[]") and len(e.get("a") or []) == 1 and e.get("obj") is not None:
+                return render(L.unwrap(e["obj"])), e["a"][0]
+            return None
+
+        nloop = 0
+        for lp in loops:
+            init = lp.get("init")
+            if init is None or init.get("k") != "Decl" or not init.get("vars"):
+                continue
+            lv = init["vars"][0]
+            body = lp.get("body") or {}
+            inner_loops = [x for x in walk(body) if x is not body and x.get("k") in ("For", "While", "Do")]
+            stmts = [x for x in walk(body) if not any(any(y is x for y in walk(il)) for il in inner_loops)]
+            # direction of the loop variable
+            steps = []
+            for x in [lp.get("inc"), lp.get("c")] + stmts:
+                if x is None:
+                    continue
+                for y in (walk(x) if (x is lp.get("inc") or x is lp.get("c")) else [x]):
+                    if y.get("k") == "Un" and y.get("op") in ("++", "--") and L.unwrap(y["e"]).get("d") == lv["d"]:
+                        steps.append(1 if y["op"] == "++" else -1)
+                    elif y.get("k") == "Assign" and L.unwrap(y["lhs"]).get("d") == lv["d"]:
+                        steps.append(0)
+            # the exchange  t = X[a]; X[a] = X[b]; X[b] = t   (or std::swap(X[a], X[b]))
+            moves, temps = [], {}
+            for x in stmts:
+                if x.get("k") == "Var" and x.get("init") is not None and element(x["init"]) is not None:
+                    temps[x["d"]] = element(x["init"])
+                lhs = rhs = None
+                if x.get("k") == "Assign" and x.get("op") == "=":
+                    lhs, rhs = x["lhs"], x["rhs"]
+                elif x.get("k") == "OpCall" and x.get("op") == "=" and len(x.get("a") or []) == 2:
+                    lhs, rhs = x["a"]
+                if lhs is not None and element(lhs) is not None:
+                    moves.append((element(lhs), strip(rhs)))
+                if x.get("k") == "Call" and str(x.get("callee", "")) in ("std::swap", "std::iter_swap") and len(x.get("a") or []) == 2 \
+                        and element(x["a"][0]) is not None and element(x["a"][1]) is not None:
+                    moves.append((element(x["a"][0]), strip(x["a"][1])))
+                    moves.append((element(x["a"][1]), {"k": "Ref", "d": "swaptmp"}))
+                    temps["swaptmp"] = element(x["a"][0])
+            exch = None
+            for (e1, r1) in moves:
+                e2 = element(r1)
+                if e2 is None or e2[0] != e1[0]:
+                    continue
+                for (e3, r3) in moves:
+                    if e3[0] == e1[0] and r3.get("k") == "Ref" and r3.get("d") in temps and temps[r3["d"]][0] == e1[0] \
+                            and poly(it, temps[r3["d"]][1]) == poly(it, e1[1]) and poly(it, e3[1]) == poly(it, e2[1]):
+                        exch = (e1, e2)
+            if exch is None:
+                continue
+            (cont, a_idx), (_, b_idx) = exch
+            # b must be read from a swap-position array at the position a (directly or through a local)
+            b0 = strip(b_idx)
+            if b0.get("k") == "Ref" and b0.get("dk") == "local" and b0.get("d") in it.localdefs and not it.reassigned(b0["d"]):
+                b0 = strip(it.localdefs[b0["d"]])
+            be = element(b0)
+            a_pos, other = a_idx, None
+            if be is not None and poly(it, be[1]) == poly(it, a_idx):
+                other = be[0]
+            else:
+                # written the other way round: X[S[a]] first
+                a0 = strip(a_idx)
+                if a0.get("k") == "Ref" and a0.get("dk") == "local" and a0.get("d") in it.localdefs and not it.reassigned(a0["d"]):
+                    a0 = strip(it.localdefs[a0["d"]])
+                ae = element(a0)
+                if ae is not None and poly(it, ae[1]) == poly(it, b_idx):
+                    other, a_pos = ae[0], b_idx
+            if other is None or other == cont:
+                continue
+            pa = poly(it, a_pos)
+            coef = pa.get((lv["n"],), 0)
+            key = "%s/swap-loop%d" % (L.fkey(fn), nloop)
+            nloop += 1
+            if key in seen_keys:
+                continue
+            seen_keys.add(key)
+            if len(steps) != 1 or steps[0] == 0 or coef == 0 or any(lv["n"] in m and len(m) > 1 for m in pa):
+                ck.incomplete("C02.swap-sequence-order", "%s: transposition loop at line %s: direction of the position %s not derivable" % (L.fkey(fn), lp.get("l"), render(a_pos)[:40]))
+                continue
+            direction = steps[0] * (1 if coef > 0 else -1)
+            # context: inverse or forward, from the names the repository uses
+            ctx, why = None, ""
+            q = par.get(id(lp))
+            child = lp
+            while q is not None and ctx is None:
+                if q.get("k") == "Case" and q.get("v") is not None:
+                    nm = render(q["v"]).rsplit("::", 1)[-1]
+                    ctx, why = ("inverse" if nm.lower().startswith("inv") else "forward"), "case %s" % nm
+                elif q.get("k") == "If":
+                    c = L.unwrap(q["c"])
+                    neg = False
+                    while c.get("k") == "Un" and c.get("op") == "!":
+                        c = L.unwrap(c["e"])
+                        neg = not neg
+                    if c.get("k") == "Ref" and c.get("dk") == "param" and c.get("n", "").lower().startswith("inv"):
+                        in_then = q.get("then") is child or any(y is child for y in walk(q.get("then") or {}))
+                        inv = in_then != neg
+                        ctx, why = ("inverse" if inv else "forward"), "%s == %s" % (c["n"], "true" if inv else "false")
+                elif q.get("k") == "Block":
+                    # a switch body: the case label is an earlier sibling of the statements it governs
+                    sib = q.get("s", [])
+                    idx = next((i_ for i_, y in enumerate(sib) if y is child), None)
+                    pq = par.get(id(q))
+                    if idx is not None and pq is not None and pq.get("k") == "Switch":
+                        for y in reversed(sib[:idx]):
+                            if y.get("k") == "Case" and y.get("v") is not None:
+                                nm = render(y["v"]).rsplit("::", 1)[-1]
+                                ctx, why = ("inverse" if nm.lower().startswith("inv") else "forward"), "case %s" % nm
+                                break
+                            if y.get("k") in ("Break", "Return", "Default"):
+                                break
+                child, q = q, par.get(id(q))
+            if ctx is None:
+                ctx = "inverse" if re.search(r"(^|_)inv", fn.name or "") else "forward"
+                why = "function %s" % fn.name
+            want = -1 if ctx == "inverse" else 1
+            ok = direction == want
+            det = "loop at line %s exchanges %s[%s] with %s[%s[..]] for positions that %s over the iterations; context: %s (%s) -> the transposition sequence must be applied %s" % (
+                lp.get("l"), cont, render(a_pos)[:30], cont, other, "ascend" if direction > 0 else "descend", ctx, why, "back to front" if want < 0 else "front to back")
+            if not ok:
+                det += ": applying the swaps in this order yields %s" % ("the permutation itself instead of its inverse (they coincide only for involutions)" if ctx == "inverse" else "the inverse instead of the permutation")
+                if ("swaporder", key) in seen_fail:
+                    continue
+                seen_fail.add(("swaporder", key))
+            ck.ob("C02.swap-sequence-order", key, ok, det, fn.file, lp.get("l"), sample={"function": fn.full, "detail": det})
+
+
+# -------------------------------------------------------------------------------------------------
 # E13: clone table / convert sharing
 # -------------------------------------------------------------------------------------------------
 
@@ -2250,6 +2446,13 @@ def run(tier):
         for e in fx.errors_outside_repo():
             ck.incomplete("C02.E1.slot-role", "driver %s no longer matches the API: %s:%s %s" % (fx.tu, e["file"], e["line"], e["msg"][:160]))
     seen_fail = set()
+    pp = featlib.repo_path("kernel/adjacency/permutation.cpp")
+    if os.path.exists(pp):
+        pfacts = featlib.extract(pp, files=featlib.repo_path("kernel/adjacency/permutation"))
+        ck.tu(pfacts)
+        swap_order_rules(ck, pfacts, seen_fail)
+    else:
+        ck.incomplete("C02.swap-sequence-order", "kernel/adjacency/permutation.cpp not found")
     for n, fx in enumerate(all_facts):
         fam = L.Family([fx])
         roles_tab = slot_roles(fam)
